@@ -15,7 +15,8 @@ import common
 from common import sexp, parse_sexp
 import c15_gen as G
 
-MODEL_FILES = ['MaltModel/Rt/Dedent.lean', 'MaltModel/Rt/Lambda.lean', 'MaltModel/Proofs/C15Dedent.lean',
+MODEL_FILES = ['MaltModel/Rt/Dedent.lean', 'MaltModel/Rt/Lambda.lean', 'MaltModel/Rt/Lex.lean',
+               'MaltModel/Proofs/C15Dedent.lean', 'MaltModel/Proofs/C15Lex.lean',
                'MaltModel/Drv/C15.lean']
 
 CLS_INSIDE = 'backslash_newline_inside_string_or_comment'
@@ -179,6 +180,11 @@ def py_classes(atoks):
     return out
 
 
+def info_future(text):
+    """parse_entity prepends the __future__ import lines to the returned source"""
+    return text.startswith('from __future__ import')
+
+
 class DefCase:
     """One function of a generated module: everything observed on the real code."""
 
@@ -300,6 +306,7 @@ class Checker:
         self.live_classes = set()
         self.gen_invalid = 0
         self.ndefsamples = 0
+        self.why = collections.defaultdict(collections.Counter)   # population -> reason -> count
 
     # ---- driver requests are batched
     def ask(self, line, cb):
@@ -320,6 +327,116 @@ class Checker:
             self.dis[op].append(detail)
         else:
             self.dis[op].append(None)
+
+    # ---- the Lean lexer against tokenize, on a whole source text
+    def lex_correspondence(self, text, origin):
+        if not self.run.driver_ok:
+            return
+        want = G.lean_view(text)
+        if want is None:
+            self.hist['lex:tokenize-rejects-the-text'] += 1
+            return
+
+        def cb(a, text=text, want=want):
+            r = parse_sexp(a)
+            self.ncorr['lex'] += 1
+            if r[0] != want[0]:
+                k = next((i for i in range(min(len(r[0]), len(want[0]))) if r[0][i] != want[0][i]), -1)
+                self.disagree('lex', {'origin': origin, 'what': 'character classes', 'at': k, 'context': text[max(0, k - 60):k + 20],
+                                      'lean': r[0][max(0, k - 8):k + 8], 'tokenize': want[0][max(0, k - 8):k + 8]})
+            elif r[1] != want[1]:
+                k = next((i for i in range(min(len(r[1]), len(want[1]))) if r[1][i] != want[1][i]), -1)
+                self.disagree('lex', {'origin': origin, 'what': 'tokens', 'at': k, 'lean': r[1][max(0, k - 1):k + 2],
+                                      'tokenize': want[1][max(0, k - 1):k + 2]})
+        self.ask('c15.lex ' + sexp(text), cb)
+
+    # ---- which theorem hypotheses does a block satisfy (Lean lexer only, no oracle)? and what do they predict?
+    def why_block(self, block, population, real_out=None, outcome=None):
+        if not self.run.driver_ok:
+            return
+
+        def cb(a, block=block):
+            reasons = parse_sexp(a)
+            self.ncorr['why'] += 1
+            for r in reasons:
+                self.why[population][r] += 1
+            unfold_in = 'unfold:in-fragment(C15_unfold_lex)' in reasons
+            dedent_in = any(r.startswith('dedent:in-fragment') or r.startswith('dedent:unindented') for r in reasons)
+            self.why[population]['ALL-HYPOTHESES-HOLD' if (unfold_in and dedent_in) else 'some-hypothesis-fails'] += 1
+            if unfold_in and 'relex:TOKENS-CHANGED' in reasons:
+                self.disagree('relex', {'block': block, 'reasons': reasons})
+            # theorem + classifier partition the inputs: inside the fragment the recovery must be right
+            if unfold_in and dedent_in and outcome is not None and outcome != 'same':
+                self.disagree('partition', {'block': block, 'outcome': outcome, 'reasons': reasons})
+        self.ask('c15.why ' + sexp(block), cb)
+        if real_out is not None:
+            def cb2(a, block=block, real_out=real_out):
+                r = parse_sexp(a)
+                if r[0] == 'True':
+                    self.ncorr['lexdedent'] += 1
+                    if r[1] != real_out:
+                        self.disagree('theorem-instance-lex', {'block': block, 'real_output': real_out, 'theorem_predicts': r[1]})
+            self.ask('c15.lexdedent ' + sexp(block), cb2)
+
+    # ---- every function of the library itself (text level: no import needed)
+    def repo_sources(self):
+        malt, parser, inspect_utils, errors = self.mods
+        root = os.path.join(common.REPO, 'malt')
+        nfiles = nfuncs = nlams = 0
+        for dp, dn, fns in sorted(os.walk(root)):
+            for fn in sorted(fns):
+                if not fn.endswith('.py'):
+                    continue
+                path = os.path.join(dp, fn)
+                try:
+                    with open(path, encoding='utf-8') as fh:
+                        text = fh.read()
+                    tree = ast.parse(text)
+                except Exception:
+                    continue
+                nfiles += 1
+                self.lex_correspondence(text, 'repo:' + os.path.relpath(path, common.REPO))
+                lines = text.splitlines(True)
+                for n in ast.walk(tree):
+                    if isinstance(n, (ast.FunctionDef, ast.AsyncFunctionDef)):
+                        first = min([d.lineno for d in n.decorator_list] + [n.lineno])
+                        try:
+                            block = ''.join(inspect.getblock(lines[first - 1:]))
+                        except Exception:
+                            continue
+                        nfuncs += 1
+                        self.run.case(('repo-def', sha(block)), block[:1] in ' \t')
+                        try:
+                            out = parser.dedent_block(block)
+                            same = ast.dump(parser.parse(out)) == ast.dump(n)
+                        except Exception as e:
+                            out, same = None, False
+                        self.hist['repo-def:' + ('same' if same else 'DIFFERS')] += 1
+                        self.why_block(block, 'repo', real_out=out, outcome='same' if same else 'diff')
+                        self.dedent_correspondence(block, 'repo:block')
+                # lambdas of the file: is each distinguishable from the others on its line?
+                tops, nodes = lambda_table(tree)
+                if nodes and self.run.driver_ok:
+                    tops_sx = sexp([[ln] + [[x._c15_id, x.lineno, x.end_lineno, sig_sexp(x)] for x in lams] for ln, lams in tops])
+                    opt = lambda x: ['none'] if x is None else ['some', x.arg]
+                    for x in nodes:
+                        nlams += 1
+                        a_ = x.args
+                        spec_sx = sexp([names_of(a_.posonlyargs) + names_of(a_.args), opt(a_.vararg), opt(a_.kwarg), names_of(a_.kwonlyargs)])
+
+                        def cbl(a, x=x):
+                            r = parse_sexp(a)
+                            self.why['repo-lambdas'][r[1]] += 1
+                            self.why['repo-lambdas']['selection:' + (r[0] if isinstance(r[0], str) else 'ok-right' if r[0] == ['ok', str(x._c15_id)] else 'ok-WRONG')] += 1
+                            if isinstance(r[0], list) and r[0] != ['ok', str(x._c15_id)]:
+                                self.disagree('theorem-instance-lambda', {'repo lambda': ast.unparse(x), 'model': r[0]})
+                        self.ask('c15.select %s %d %s %d' % (tops_sx, x.lineno, spec_sx, x._c15_id), cbl)
+            if len(self.req) > 3000:
+                self.flush()
+        self.flush()
+        self.hist['repo:files'] = nfiles
+        self.hist['repo:functions'] = nfuncs
+        self.hist['repo:lambdas'] = nlams
 
     # ---- one code string through unfold / dedent_block, real vs model
     def dedent_correspondence(self, code, origin, want_spec=True):
@@ -448,6 +565,7 @@ class Checker:
         idx = def_index(tree)
         reg = list(mod.REG)
         results = []
+        self.lex_correspondence(text, origin)
         by_line = {i.get('line'): i for i in infos}
         for k, f in enumerate(reg):
             if only_line is not None and f.__code__.co_firstlineno != only_line:
@@ -489,6 +607,8 @@ class Checker:
             else:
                 self.classes_of_block(dc.src, lambda c, r: None)
             self.dedent_correspondence(dc.src, origin + ':block')
+            self.why_block(dc.src, 'generated', real_out=dc.source if (dc.kind == 'node' and not info_future(text)) else None,
+                           outcome=outcome)
             results.append(dc)
         return results
 
@@ -552,6 +672,7 @@ class Checker:
             self.gen_invalid += 1
             return
         tops, nodes = lambda_table(tree)
+        self.lex_correspondence(text, origin)
         # physical lines that begin inside a multi-line token (class predicate of C15-lambda-line-inside-string)
         mtoks, mstatus = G.tokens_of(text)
         nlines = text.count('\n') + 1
@@ -717,6 +838,12 @@ class Checker:
                     want = ['ok', str(real[1])] if real[0] == 'ok' else real[0]
                     if r[0] != want:
                         self.disagree('select', {'case': {k: v for k, v in case.items() if k != 'module'}, 'implementation': list(real), 'model': r[0]})
+                    self.why['generated-lambdas'][r[1]] += 1
+                    # C15_lambda_partition on this case: distinguishable -> the right node, otherwise the explicit error
+                    if r[1].startswith('distinguishable') and real != ('ok', case['true_id']):
+                        self.disagree('theorem-instance-lambda', {'lambda': case['lambda'], 'class': r[1], 'real': list(real)})
+                    if r[1].startswith('same-visible-signature') and real != ('ambiguous',):
+                        self.disagree('theorem-instance-lambda', {'lambda': case['lambda'], 'class': r[1], 'real': list(real)})
                     finish()
                 self.ask('c15.select %s %d %s %d' % (tops_sx, def_line, spec_sx, true_node._c15_id), cb)
             else:
@@ -850,6 +977,8 @@ def check(run, only_case=None):
         if len(chk.req) > 4000:
             chk.flush()
     chk.flush()
+    # -------- the library's own sources: lexer correspondence, hypotheses, dedent_block correspondence
+    chk.repo_sources()
     # -------- modules imported from zip archives / through source-only loaders, decorated across modules
     ngroups = 6 if quick else 60
     kinds = ['disk', 'zip', 'loader']
@@ -884,7 +1013,9 @@ def check(run, only_case=None):
         for op, kind in (('unfold', 'correspondence'), ('dedent', 'correspondence'), ('select', 'correspondence'),
                          ('class-predicates', 'correspondence'), ('spec', 'checker'), ('theorem-instance', 'checker'),
                          ('theorem-instance-unfold', 'checker'), ('tokens-preserved', 'checker'),
-                         ('cpython-facts', 'assumption'), ('theorem-instance-lambda', 'checker')):
+                         ('cpython-facts', 'assumption'), ('theorem-instance-lambda', 'checker'),
+                         ('lex', 'correspondence'), ('theorem-instance-lex', 'checker'), ('partition', 'checker'),
+                         ('relex', 'checker')):
             d = chk.dis.get(op, [])
             shown = [x for x in d if x is not None]
             name = {'spec': 'checker:dedent-spec-on-real-output', 'theorem-instance': 'checker:C15_dedent_text-predicts-real-output',
@@ -892,6 +1023,10 @@ def check(run, only_case=None):
                     'tokens-preserved': 'checker:tokens-preserved-by-unfolding-under-hypotheses',
                     'cpython-facts': 'assumption:cpython-facts-used-by-C15_lambda-hold-on-every-case',
                     'theorem-instance-lambda': 'checker:C15_lambda-hypotheses-imply-the-right-lambda',
+                    'lex': 'correspondence:c15.lex-vs-tokenize-on-every-generated-and-repo-source',
+                    'theorem-instance-lex': 'checker:C15_recover_partial-predicts-real-output',
+                    'partition': 'checker:inside-the-fragment-the-recovery-is-right',
+                    'relex': 'checker:on-the-fragment-the-lean-lexer-finds-the-same-tokens-after-unfolding',
                     }.get(op, 'correspondence:c15.' + op)
             run.oblige(name, kind, not d, ('%d disagreements; first: ' % len(d)) + json.dumps(shown[:2])[:1500] if d else '')
     else:
@@ -901,6 +1036,7 @@ def check(run, only_case=None):
     run.cov['outcomes'] = dict(sorted(chk.hist.items()))
     run.cov['layout_features'] = dict(chk.feat_hist.most_common())
     run.cov['failure_classes'] = dict(chk.class_hist)
+    run.cov['hypothesis_coverage'] = {pop: dict(sorted(c.items())) for pop, c in sorted(chk.why.items())}
     run.cov['correspondence_evaluations'] = dict(chk.ncorr)
     run.evaluations += sum(chk.ncorr.values())
     run.cov['modules'] = {'definitions': nmods, 'lambdas': nl, 'decorator/user module pairs': ngroups * 9}
